@@ -4,12 +4,16 @@ import itertools
 from harness import coqio as q
 
 ID = "C01"
-COQ_REQUIRE = ["Net", "M_Dpop"]
+COQ_REQUIRE = ["Net", "M_Dpop", "M_DpopValid"]
 COQ_CASE_TYPE = "M_Dpop.case"
-COQ_CHECK = "M_Dpop.check_case"
+# M_Dpop.check_case (replay of the recorded schedule) && dpop_check of the real pseudo-tree (the
+# hypothesis of dpop_all_schedules)
+COQ_CHECK = "M_DpopValid.check_case"
 OBLIGATIONS = ["sem_join", "sem_projection", "sem_slice", "fao_optimal",
                "dpop_util_sem_partial", "dpop_util_sem", "dpop_choice_opt", "dpop_util_accumulates", "dpop_value_opt", "dpop_root_opt",
-               "dpop_value_forward", "dpop_all_schedules_partial"]
+               "dpop_value_forward", "dpop_all_schedules_partial",
+               "dpop_check_valid", "dpop_no_raise_all_schedules", "dpop_invariant_all_schedules",
+               "dpop_complete_all_finished", "dpop_optimal", "dpop_cost_is_dcop_cost", "dpop_all_schedules"]
 N_QUICK, N_THOROUGH = 400, 8000
 PARALLEL = 8
 SHARD = 40
@@ -23,22 +27,30 @@ RULE = ("seeded random DCOPs: 1-7 variables, domain sizes 1-3 (values offset fro
 MODELLED = ("DpopAlgo (__init__ ownership filter and initial table, on_start, _on_util_message, "
             "_compute_utils_msg, _on_value_message, select_value_and_finish) and the relation helpers it calls "
             "(join, projection, slice, find_arg_optimal on nested cost tables) are modelled and plugged into Net.v; "
-            "theorems: relation algebra semantics, UTIL = optimum over the subtree, VALUE choice = first "
-            "arg-optimum, local choices => global optimum for every valid pseudo-tree, safety for all schedules; "
-            "the correspondence run compares every message, selection, finished call, final tables and "
-            "in-flight messages on the recorded schedule, and a brute-force oracle checks optimality.")
+            "THEOREM dpop_all_schedules (all dcops passing the executable hypothesis checker dpop_check, all "
+            "schedules of starts and per-channel FIFO deliveries): no handler of a tree node raises; if the final "
+            "configuration is complete every node finished and emitted finished / selection exactly once with a "
+            "domain value, and the assignment's cost (variable costs + all constraints) is the brute-force optimum "
+            "for the mode, any number of components. Proved through a global network invariant (phases, at most "
+            "one UTIL up and one VALUE down per tree edge, meaning of every accumulated table and message). "
+            "The correspondence run compares every message, selection, finished call, final tables and in-flight "
+            "messages on the recorded schedule, evaluates dpop_check on the pseudo-tree pydcop built (so the "
+            "theorem's hypothesis is checked on every real input), and a brute-force oracle checks optimality.")
 META = dict(
-    level_text=("Proof (Coq) over an executable model of DpopAlgo plugged into the asynchronous network model: "
-                "join/projection/slice/find_arg_optimal mean sum / optimum / restriction / first arg-optimum; the "
-                "UTIL a node sends means the optimum over its subtree of the costs owned there; the value picked on "
-                "a VALUE message is the first arg-optimum given the separator values; an assignment made of such "
-                "choices has the brute-force optimal cost for every DCOP and valid pseudo-tree (any arity, any "
-                "number of components, min or max); and under every schedule of starts and per-channel FIFO "
-                "deliveries no handler raises and every selected value is that optimal choice. Tied to dpop.py / "
-                "relations.py by replaying recorded schedules on the real computations."),
+    level_text=("Proof (Coq) over an executable model of DpopAlgo plugged into the asynchronous network model: for every "
+                "DCOP whose pseudo-tree passes the executable validity checker (forest with converse links, kept "
+                "constraints mention only ancestors, each child tied to its parent, ownership filter = partition of "
+                "the constraints; soundness of the checker proved) and EVERY schedule of starts and per-channel FIFO "
+                "deliveries: no handler raises; at a complete final configuration every node has finished exactly "
+                "once with a domain value and the total cost of the assignment equals the brute-force optimum "
+                "(min or max, n-ary / unary constraints, variable costs, any number of components). Also: the meaning "
+                "of join / projection / slice / find_arg_optimal and the handler-level steps. Tied to dpop.py / "
+                "relations.py / pseudotree.py by replaying recorded schedules on the real computations and by "
+                "evaluating the checker on every pseudo-tree the real builder returns."),
     level_note=("Trusted: Coq kernel/vm_compute, M_Dpop.v + Net.v as a rendering of the Python code, the thread-free "
-                "netdriver, integer costs (floats exact). The pseudo-tree is an input satisfying PT_valid_dpop "
-                "(C17 proves the builder's output valid). Quiescence => every node finished is the _partial part."),
+                "netdriver, integer costs (floats exact), non-empty domains. The pseudo-tree is an input; that the "
+                "builder's output passes dpop_check is checked per generated case, not proved (C17 proves PT_valid of "
+                "the builder's output; the derivation dpop_check from PT_valid is not formalised)."),
     technique="Coq invariant proof over an executable network model + schedule-replay correspondence",
     design_ref="DESIGN.md §5 C01",
 )
